@@ -5,7 +5,7 @@ cd "$(dirname "$0")/.."
 mkdir -p .work/logs
 for id in $(python3 -c "import json;print(' '.join(c['property_id'] for c in json.load(open('MANIFEST.json'))['checks']))"); do
   s=$(date +%s)
-  bin/check $id $tier > .work/logs/$id.$tier.log 2>&1
+  timeout 5400 bin/check $id $tier > .work/logs/$id.$tier.log 2>&1
   rc=$?
   echo "$id rc=$rc $(( $(date +%s) - s ))s $(grep -c '^KNOWN-FINDING' .work/logs/$id.$tier.log) known $(grep -c '^VIOLATION' .work/logs/$id.$tier.log) violations"
 done
